@@ -282,10 +282,13 @@ def curClose (s : Store) (c : Nat) : Store × String :=
     | none => (s, "cur nocursor")
     | some d => (setDb { (s.setRes c 0) with curDb := s.curDb.filter (·.1 ≠ c) } id { d with db := Kv.closeCur d.db c }, "cur ok")
 
-/-- `cur->cn == 0` with `cur->dbaddr` still set: a NEXT / PREV move starts from the head / tail again -/
+/-- `cur->cn == 0` with `cur->dbaddr` still set: a NEXT / PREV move loads the head / tail pseudo block again. The slot
+index was zeroed when the cursor's node went away: on the tail block that is the position AFTER_LAST sets (PREV walks on
+from the last record); on the head block it is not (BEFORE_FIRST sets 31, the head counts 32 slots), so from there every
+move reports not-found, like a detached cursor -/
 def resumePos (r : Nat) (p : CPos) : CPos :=
   match p with
-  | .void => if r = 1 then .head else if r = 2 then .tail else .void
+  | .void => if r = 2 then .tail else .void
   | p => p
 
 def curTo (s : Store) (c : Nat) (op : String) : Store × String :=
